@@ -187,6 +187,8 @@ def run(ctx) -> list[Inst]:
             d = diff_tables(table, ref_table)
         except Exception as e:      # rendering only
             d = f'tables differ (rendering failed: {e})'
+        if not extra and _presence_respelling(table, ref_table):
+            extra = ['<presence test respelled: `D.get(k) is None` against `k in D` - equal only if D never holds None>']
         if extra:
             insts.append(Inst(RULE, fname, construct, 'unproven',
                               msg=f'table differs but calls functions / reads globals the reference does not know {extra}: {d[:300]}',
@@ -479,6 +481,45 @@ def _kinds(t, acc):
             if isinstance(x, tuple):
                 _kinds(x, acc)
     return acc
+
+
+def _presence_respelling(table, ref_table) -> bool:
+    """the code asks `D.get(k) is None` / `D[k] is None` where the reference asks `k in D` (or the other way round), and
+    nothing else is new: the two are the same test exactly when D never holds None - a fact about the data that is not
+    visible in the function.  Not decidable here."""
+    def flat(t):
+        out = set()
+        for group in _all_atoms(t, []):
+            for a in group:
+                out.add(a)
+        return out
+    ca, ra = flat(table), flat(ref_table)
+    new = ca - ra
+    if not new:
+        return False
+
+    def none_item(a):
+        if isinstance(a, tuple) and len(a) == 3 and a[0] == 'eq':
+            x, y = a[1], a[2]
+            if x == ('const', None):
+                x, y = y, x
+            if y == ('const', None) and isinstance(x, tuple) and x and x[0] == 'item' and len(x) == 3:
+                return x[1], x[2]
+        return None
+    refs_in = {(a[2], a[1]) for a in ra if isinstance(a, tuple) and len(a) == 3 and a[0] == 'in'}
+    code_in = {(a[2], a[1]) for a in ca if isinstance(a, tuple) and len(a) == 3 and a[0] == 'in'}
+    hit = False
+    for a in new:
+        ni = none_item(a)
+        if ni is not None and ni in refs_in:
+            hit = True
+            continue
+        if isinstance(a, tuple) and len(a) == 3 and a[0] == 'in' and any(none_item(b) == (a[2], a[1]) for b in ra):
+            hit = True
+            continue
+        # atoms that only differ by reading D[k] through the respelled test are accepted as part of the same rewrite
+        return False
+    return hit
 
 
 def _new_atoms(table, ref_table) -> bool:
